@@ -666,7 +666,7 @@ pub fn c05(run: &mut Run) {
     run.require_label("c05_model", "resume", 0.1);
     run.require_label("c05_model", "blend_after_pause_discarded", 0.05);
     run.require_label("c05_model", "pause", 0.2);
-    crate::fuzzdrv::campaign(run, "fz_c05", 1_200_000);
+    crate::fuzzdrv::campaign(run, "fz_c05", 4_800_000);
     // exhaustive enumeration of all histories up to a depth over a 9-letter alphabet
     let depth: u32 = if run.tier == mv_engine::Tier::Quick { 6 } else { 8 };
     let alphabet: Vec<AOp> = vec![
@@ -733,7 +733,7 @@ pub fn c07_strategy() -> impl Strategy<Value = HistCase> {
 
 pub fn c07(run: &mut Run) {
     run.assume("exact domain for equality at the end instant: time in state is a sum of exactly representable steps, itself representable in f32, and every component total is representable; otherwise either answer is accepted within a band of 2(ulp(total)+ulp(t))");
-    let cases = run.tier.pick(200_000, 5_000_000);
+    let cases = run.tier.pick(200_000, 15_000_000);
     run.prop(
         "c07_ended",
         "proptest: animator configuration (incl. merged, infinite, no-timeline states) x history <=20 biased to land exactly on / one grid step before / beyond the end instant; oracle: is_ended == (no timeline or t >= max component total), never with an infinite component, monotone until set_state, values bitwise frozen at the model's terminal values once ended; non-trivial = history crosses the end instant and keeps advancing afterwards",
@@ -1111,5 +1111,5 @@ pub fn c06(run: &mut Run) {
         run.tier.pick(20_000, 500_000),
         c06_train_judge,
     );
-    crate::fuzzdrv::campaign(run, "fz_c06", 1_600_000);
+    crate::fuzzdrv::campaign(run, "fz_c06", 6_400_000);
 }
